@@ -68,8 +68,12 @@ def arrays(case):
     ta, tb = list(case["tomos_a"]), list(case["tomos_b"])
     if case["same"]:
         tb = ta
-    elif case["share"] > 0 and not set(ta) & set(tb):
-        tb[0] = ta[0]
+    elif case["share"] == 1:  # second list covers the first list's tomograms plus one more
+        tb = ta + [max(ta + tb) + 1]
+    elif case["share"] == 2 and len(ta) >= 2:  # overlap in all but one, plus one only in the second list
+        tb = ta[:-1] + [max(ta + tb) + 1]
+    elif case["share"] == 3:
+        tb = list(ta)
     rng = np.random.default_rng(len(A) * 131 + len(B))
     A[:, IX["tomo_id"]] = np.array(ta, float)[rng.integers(0, len(ta), len(A))]
     if case["same"]:
